@@ -445,6 +445,41 @@ func c20Run(c *vcore.Ctx) *vcore.Violation {
 		}
 		h.destroyed = true
 	}
+	// 4b. v1: handles on one name with different controller subsets: destroying the later, wider one must
+	// leave the directories the earlier one created
+	if mode == "v1" && root != nil {
+		avail := []string{"cpu", "cpuacct", "memory", "pids"}
+		first := avail[1+src.Int(3, "subset_first"):]
+		if len(first) > 2 {
+			first = first[:2]
+		}
+		ctA, ctB := &cgroup.Controllers{}, &cgroup.Controllers{}
+		for _, n := range first {
+			ctA.Set(n, true)
+			ctB.Set(n, true)
+		}
+		ctB.Set("cpu", true)
+		name := filepath.Join(prefix, "subset")
+		hA, errA := cgroup.New(name, ctA)
+		if errA == nil {
+			hB, errB := cgroup.New(name, ctB)
+			if errB == nil {
+				hB.Destroy()
+				for _, p := range s4Paths(mode, first, name) {
+					if !exists(p) {
+						hA.Destroy()
+						return vcore.Violate(prop, "destroy_removed_foreign_group", "v1/controller_subsets", "a handle for controllers %v created %s; a later handle for %v on the same name was destroyed and took it along", first, strings.TrimPrefix(p, cgBase), append([]string{"cpu"}, first...))
+					}
+				}
+				syscall.Rmdir(filepath.Join(cgBase, "cpu", name))
+			}
+			hA.Destroy()
+			for _, p := range s4Paths(mode, append([]string{"cpu"}, first...), name) {
+				syscall.Rmdir(p)
+			}
+		}
+		c.Event("subset:" + strings.Join(first, "+"))
+	}
 	// 5. AddProc moves exactly the given process; limits read back (sequential part, real hierarchies)
 	if root != nil {
 		if v := c20ProcAndLimits(c, mode, root, prefix, ctrls); v != nil {
